@@ -66,7 +66,7 @@ VARIABLES now,     \* clock
 vars == <<now, conf, s, att, ses, h, hist, logs, up, conn, relay>>
 
 NoRq == [shape |-> "-", slot |-> 0]
-IdleCall == [pc |-> "idle", kind |-> "-", from |-> None, peer |-> None, rq |-> NoRq, protos |-> <<>>, sto |-> 0, nonzero |-> FALSE,
+IdleCall == [pc |-> "idle", kind |-> "-", from |-> None, peer |-> None, rq |-> NoRq, base |-> "-", delims |-> <<>>, protos |-> <<>>, sto |-> 0, nonzero |-> FALSE,
              ctx |-> "live", cx |-> "live", a |-> 0, ares |-> "-", openAt |-> None, dl |-> None, wbuf |-> <<>>, rv |-> None,
              wake |-> None, retd |-> FALSE, retAt |-> None]
 NoSes == [pc |-> "none", accAt |-> None, rdl |-> None, ctxdl |-> None, inv |-> 0, hrq |-> NoRq, hfrom |-> None, hres |-> "-", hv |-> 0,
@@ -113,7 +113,7 @@ Linked(a, b) == {a, b} \in up
 \* ENVIRONMENT: a call; x = [kind, from, peer, rq, base, delims, sto, nonzero, ctx]
 Call(c, x) ==
   /\ s[c].pc = "idle"
-  /\ Upd(c, [IdleCall EXCEPT !.pc = "start", !.kind = x.kind, !.from = x.from, !.peer = x.peer, !.rq = x.rq,
+  /\ Upd(c, [IdleCall EXCEPT !.pc = "start", !.kind = x.kind, !.from = x.from, !.peer = x.peer, !.rq = x.rq, !.base = x.base, !.delims = x.delims,
                              !.protos = ProtoOrder(x.base, x.delims), !.sto = x.sto, !.nonzero = x.nonzero, !.ctx = x.ctx])
   /\ UNCHANGED <<now, conf, att, ses, h, hist, logs, up, conn, relay>>
 \* SendAsync returns nil at once
@@ -370,11 +370,18 @@ Deadlines == /\ \A c \in Made : s[c].dl # None => s[c].dl = s[c].openAt + s[c].s
    MutablePeers holds at that moment *)
 CAdmit(g, id) == g \notin conf.gated \/ id \in conf.cluster \/ \E r \in DOMAIN relay : relay[r] = id
 GaterContract == [][\A pr \in conn' \ conn : \A a, b \in pr : a # b => CAdmit(a, b)]_vars
+\* "WithDelimitedProtocol returns an option that adds a length delimited read/writer for the provide protocol" -- "Add to
+\* front", "Protocols ordered by higher priority first": the stream runs the LAST added protocol the peer knows, the base
+\* protocol only when it knows none of the added ones
+ProtoPreference == \A c \in Made : \A a \in 1..Len(att[c]) : att[c][a].open =>
+                      att[c][a].proto = FirstSupported(Reverse(s[c].delims) \o <<s[c].base>>, Srv(P(c)).protos)
+\* SendAsync: "Clone the context since parent context may be closed soon": the send does not see the caller's context end
+AsyncDetached == \A c \in Made : s[c].kind = "async" => s[c].cx = "live"
 \* one peer's results never touch another peer's state
 PeerIndependence == [][\A k \in Pairs : (h'[k] # h[k] \/ logs'[k] # logs[k]) => Len(hist'[k]) = Len(hist[k]) + 1]_vars
 TypeOK == /\ now \in Nat
           /\ \A c \in Calls : Len(att[c]) = s[c].a /\ Len(ses[c]) = s[c].a
           /\ \A k \in Pairs : Len(h[k].buf) <= BufLen
 Safety == /\ HysteresisExact /\ Accounted /\ ResponseMatch /\ HandlerOnce /\ ResponseOnlyIfPresent /\ RetryOnce /\ ClientCloses
-          /\ Deadlines /\ TypeOK
+          /\ Deadlines /\ ProtoPreference /\ AsyncDetached /\ TypeOK
 ====
